@@ -16,6 +16,7 @@ import (
 	"github.com/youchainhq/go-youchain/core/state"
 	"github.com/youchainhq/go-youchain/core/types"
 	"github.com/youchainhq/go-youchain/crypto"
+	"github.com/youchainhq/go-youchain/local"
 	"github.com/youchainhq/go-youchain/params"
 	"github.com/youchainhq/go-youchain/rlp"
 	"github.com/youchainhq/go-youchain/staking"
@@ -148,9 +149,13 @@ type world struct {
 	lastPanic string
 	prev      *state.StateDB // the original of the last Copy, and what it showed then: a Copy must be independent
 	prevObs   string
+	readerBad string // what the consensus-side reader (NewVldReader on the committed validator root) shows wrong
+	modelOff  bool   // an oracle-only op (endblock, lastactive) ran: the model no longer follows this case
+	funded    bool
 }
 
 func newWorld() *world {
+	params.InitNetworkId(params.NetworkIdForTestCase) // the scaled-down parameter table (period 16, inactivity wait 32)
 	w := &world{}
 	w.reset()
 	return w
@@ -165,6 +170,7 @@ func (w *world) reset() {
 	w.st = st
 	w.statWf, w.sumsWf, w.linksWf, w.apiWf, w.dead = true, true, true, true, false
 	w.prev, w.prevObs = nil, ""
+	w.modelOff, w.funded, w.readerBad = false, false, ""
 }
 
 func (w *world) setCfg(c cfgT) {
@@ -423,7 +429,103 @@ func (w *world) exec(line string) (out string, skip bool) {
 			panic("reload: " + err.Error())
 		}
 		w.st = n
+		w.readerBad = w.consensusView(vr)
 		return "done", false
+	case "lastactive":
+		// oracle-only: Ext.LastActive is outside the model
+		w.modelOff = true
+		cur := st.GetValidatorByMainAddr(vaddr(atoi(f[1])))
+		if cur == nil {
+			return "missing", false
+		}
+		nv := cur.PartialCopy()
+		nv.UpdateLastActive(uint64(atoi(f[2])))
+		st.UpdateValidator(nv, cur)
+		return "ok", false
+	case "endblock":
+		// oracle-only: the real end-of-block hook (staking.EndBlock) as ONE unit on this StateDB:
+		// YouV5 upgrade step -> slashing -> rewardsToPool -> endStakingPeriod (inactivity slashing and recovery,
+		// distributeRewards, processWithdrawQueue, processPendingTxs).
+		// Preconditions: those under which the unchanged code cannot reach logging.Crit (os.Exit) or the known
+		// division by zero of rewardsToPool: the proposer exists, some validator is online, and the property holds now.
+		height := uint64(atoi(f[1]))
+		if !w.statWf || !w.sumsWf || !w.apiWf || w.oracle() != "" {
+			return "", true
+		}
+		if !w.cfg.v5 {
+			// before YouV5 distributeRewards reads the cached GetValidators() set, which is only meaningful on a
+			// StateDB opened for this block (as the node does): commit and reopen first. (Inapplicable when that
+			// commit cannot encode the state.)
+			for _, v := range st.GetValidatorsForUpdate() {
+				if v.Token.Sign() < 0 || v.Stake.Sign() < 0 || v.SelfToken.Sign() < 0 || v.SelfStake.Sign() < 0 || v.RewardsDistributable.Sign() < 0 {
+					return "", true
+				}
+			}
+			w.modelOff = true
+			r, vr, sr, err := st.Commit(true)
+			if err != nil {
+				panic("commit: " + err.Error())
+			}
+			n, err := state.New(r, vr, sr, w.db)
+			if err != nil {
+				panic("reload: " + err.Error())
+			}
+			w.st, st = n, n
+			w.prev = nil
+		}
+		prop := st.GetValidatorByMainAddr(vaddr(atoi(f[2])))
+		if prop == nil {
+			return "", true
+		}
+		online := false
+		chamberOn := map[params.ValidatorRole]*big.Int{}
+		for _, v := range st.GetValidatorsForUpdate() {
+			if !sumsHold(v) || v.Token.Sign() < 0 || v.RewardsDistributable.Sign() < 0 {
+				return "", true
+			}
+			for _, d := range v.Delegations {
+				if !st.Exist(d.Delegator) {
+					return "", true
+				}
+			}
+			if v.IsOnline() {
+				online = true
+				if v.Role != params.RoleHouse {
+					if chamberOn[v.Role] == nil {
+						chamberOn[v.Role] = new(big.Int)
+					}
+					chamberOn[v.Role].Add(chamberOn[v.Role], v.Stake)
+				}
+			}
+		}
+		// known totalisation hazards of the reward code (not C08's subject): no online validator at all
+		// (rewardsToPool divides by the sum of portions) or an online chamber role whose total stake is zero
+		// (distributeRewards divides by it)
+		if !online {
+			return "", true
+		}
+		for _, s := range chamberOn {
+			if s.Sign() == 0 {
+				return "", true
+			}
+		}
+		w.modelOff = true
+		if !w.funded {
+			st.AddBalance(w.yp.RewardsPoolAddress, new(big.Int).Mul(big.NewInt(1000000), params.StakeUint))
+			w.funded = true
+		}
+		pv := w.yp.Version
+		if len(f) > 3 && f[3] == "1" && w.cfg.v5 {
+			pv = params.YouV4 // the first YouV5 block: checkAndUpgradeValidatorsToYouV5 runs
+		}
+		parent := &types.Header{Number: new(big.Int).SetUint64(height - 1), CurrVersion: pv, GasRewards: new(big.Int), Subsidy: new(big.Int)}
+		header := &types.Header{Number: new(big.Int).SetUint64(height), CurrVersion: w.yp.Version, Coinbase: prop.MainAddress(),
+			GasRewards: big.NewInt(int64(atoi(f[4]))), Subsidy: new(big.Int), ParentHash: parent.Hash()}
+		hook := staking.EndBlock(staking.NewStaking(nil))
+		if _, _, err := hook(&fakeChain{cfg: w.yp, parent: parent}, header, nil, st, false, local.FakeRecorder()); err != nil {
+			return "err", false
+		}
+		return "ok", false
 	case "copy":
 		w.prev, w.prevObs = st, w.observe()
 		w.st = st.Copy()
@@ -549,6 +651,12 @@ func (w *world) oracle() (bad string) {
 		}
 	}()
 	st := w.st
+	if w.readerBad != "" && w.apiWf && w.statWf {
+		bad = w.readerBad
+		w.readerBad = ""
+		return bad
+	}
+	w.readerBad = ""
 	if w.prev != nil {
 		// operations on a Copy must not show through on the original (statistics, index, records, delegation lists)
 		w.st = w.prev
@@ -651,6 +759,45 @@ func (w *world) oracle() (bad string) {
 				}
 			}
 		}
+	}
+	return ""
+}
+
+// fakeChain is the minimal vm.ChainReader the staking end-block hook needs.
+type fakeChain struct {
+	cfg    *params.YouParams
+	parent *types.Header
+}
+
+func (c *fakeChain) VersionForRound(uint64) (*params.YouParams, error) { return c.cfg, nil }
+func (c *fakeChain) GetHeader(common.Hash, uint64) *types.Header       { return c.parent }
+func (c *fakeChain) GetHeaderByHash(common.Hash) *types.Header         { return c.parent }
+func (c *fakeChain) GetBlock(common.Hash, uint64) *types.Block         { return nil }
+func (c *fakeChain) CurrentHeader() *types.Header                      { return c.parent }
+
+// consensusView opens the committed validator trie the way consensus does (state.NewVldReader, sorted GetValidators)
+// and checks that its statistics equal the recomputation from its own validator list.
+func (w *world) consensusView(valRoot common.Hash) (bad string) {
+	defer func() {
+		if r := recover(); r != nil {
+			bad = fmt.Sprintf("consensus view: reading the committed validator trie panicked: %v", r)
+		}
+	}()
+	rd, err := state.NewVldReader(valRoot, w.db, true)
+	if err != nil {
+		return "consensus view: NewVldReader: " + err.Error()
+	}
+	stat, err := rd.GetValidatorsStat()
+	if err != nil {
+		return "consensus view: stat: " + err.Error()
+	}
+	all, on := newAcc(), newAcc()
+	_ = on
+	for _, v := range rd.GetValidators().List() {
+		all.add(v)
+	}
+	if got := showBucket(stat.GetByKind(params.KindValidator)); got != all.String() {
+		return fmt.Sprintf("stats: consensus view (NewVldReader on the committed root): stored %s, recomputed from GetValidators() %s", got, all)
 	}
 	return ""
 }
